@@ -210,8 +210,18 @@ func Twin(self string, trace string, out io.Writer) int {
 		delete(y.State, "global")
 		xs, _ := json.Marshal(x.State)
 		ys, _ := json.Marshal(y.State)
-		if string(xs) != string(ys) || fmt.Sprint(x.Res["res"]) != fmt.Sprint(y.Res["res"]) {
+		sameResp := fmt.Sprint(x.Res["res"]) == fmt.Sprint(y.Res["res"]) && fmt.Sprint(x.Res["gas"]) == fmt.Sprint(y.Res["gas"]) && fmt.Sprint(x.Res["ev"]) == fmt.Sprint(y.Res["ev"])
+		if fmt.Sprint(x.Op["k"]) == "sim" {
+			sameResp = true // not a consensus result
+		}
+		if string(xs) != string(ys) || !sameResp {
 			fields := []string{}
+			if fmt.Sprint(x.Res["gas"]) != fmt.Sprint(y.Res["gas"]) {
+				fields = append(fields, "gas")
+			}
+			if fmt.Sprint(x.Res["ev"]) != fmt.Sprint(y.Res["ev"]) {
+				fields = append(fields, "events")
+			}
 			for k, v := range x.State {
 				vb, _ := json.Marshal(v)
 				wb, _ := json.Marshal(y.State[k])
